@@ -28,21 +28,30 @@ def _swap(txt, a, b):
 
 
 def _norm_commutative(txt):
-    """sort the operands of top-level commutative sums so that `a*x + b*y` == `b*y + a*x` after the swap"""
+    """canonical operand order for commutative + and * (n-ary chains flattened and sorted), so that `a*x + b*y` == `b*y + a*x`"""
     try:
         tree = ast.parse(txt)
     except SyntaxError:
         return txt
 
+    def flat(node, op):
+        if isinstance(node, ast.BinOp) and isinstance(node.op, op):
+            return flat(node.left, op) + flat(node.right, op)
+        return [node]
+
     class T(ast.NodeTransformer):
         def visit_BinOp(self, node):
-            self.generic_visit(node)
             if isinstance(node.op, (ast.Add, ast.Mult)):
-                l, r = ast.unparse(node.left), ast.unparse(node.right)
-                if l > r:
-                    node.left, node.right = node.right, node.left
+                op = type(node.op)
+                parts = [self.visit(p) for p in flat(node, op)]
+                parts.sort(key=ast.unparse)
+                out = parts[0]
+                for p_ in parts[1:]:
+                    out = ast.BinOp(left=out, op=op(), right=p_)
+                return out
+            self.generic_visit(node)
             return node
-    return ast.unparse(T().visit(tree))
+    return ast.unparse(ast.fix_missing_locations(T().visit(tree)))
 
 
 def r_mirror(idx, rep, rule="R-MIRROR"):
@@ -70,3 +79,353 @@ def r_mirror(idx, rep, rule="R-MIRROR"):
         t = ncmp(st.test)
         ok = t is not None and _swap(u(t[1]), a, b) == u(t[2]) or (t is not None and _swap(u(t[2]), a, b) == u(t[1]))
         rep.check(bool(ok), rule, "%s|decision compares mirrored quantities" % f.key, where, "the top decision `%s` does not compare two mirrored quantities" % u(st.test))
+
+
+# ------------------------------------------------------------------------------------------------ case dispatch
+def _axis_of(node, vec):
+    """direction_in_box[k] -> k (int constant) when node subscripts the vector named vec"""
+    if isinstance(node, ast.Subscript) and isinstance(node.value, ast.Name) and node.value.id == vec:
+        try:
+            k = ast.literal_eval(node.slice)
+        except Exception:
+            return None
+        return k if isinstance(k, int) else None
+    return None
+
+
+def _index_roles(f, dirparam):
+    """index parameters of a case function: 'moving' when direction[ix] is read, 'static' otherwise"""
+    params = f.params()
+    roles = {}
+    used_as_index = set()
+    for n in ast.walk(f.node):
+        if isinstance(n, ast.Subscript):
+            for m in ast.walk(n.slice):
+                if isinstance(m, ast.Name) and m.id in params:
+                    used_as_index.add(m.id)
+                    if isinstance(n.value, ast.Name) and n.value.id == dirparam:
+                        roles[m.id] = "moving"
+    for p in used_as_index:
+        roles.setdefault(p, "static")
+    return roles
+
+
+def r_casedispatch(idx, rep, rule="R-CASEDISPATCH"):
+    rep.rule(rule, "_line_to_box dispatches on the sign pattern of the (reflected, hence non-negative) direction: on every one of the 8 "
+                   "patterns the case function receives the axes with a positive component as the indices it moves along (it divides by "
+                   "them) and the axes with a zero component as the indices it only clamps; truth table over the three tests", floor=8)
+    import itertools
+    f = idx.func(LB + "::_line_to_box")
+    # the direction vector: the local compared with 0 in the top-level decision
+    tops = [st for st in f.node.body if isinstance(st, ast.If)]
+    if not tops:
+        raise AnalysisError("_line_to_box: decision tree not found")
+    top = tops[-1]
+    t = ncmp(top.test)
+    if t is None or not isinstance(t[2], ast.Subscript) or not isinstance(t[2].value, ast.Name):
+        raise AnalysisError("_line_to_box: top decision `%s` is not `0 < direction[k]`" % u(top.test))
+    dvec = t[2].value.id
+    m = idx.module(LB)
+
+    def atom(test):
+        t = ncmp(test)
+        if t is None or t[0] != "<":
+            return None
+        k = _axis_of(t[2], dvec)
+        if k is None or ast.unparse(t[1]) not in ("0.0", "0"):
+            return None
+        return k
+
+    for bits in itertools.product([True, False], repeat=3):
+        reached = []
+
+        def run(body, path):
+            for st in body:
+                if isinstance(st, ast.If):
+                    k = atom(st.test)
+                    if k is None:
+                        raise AnalysisError("_line_to_box: test `%s` is not `direction[k] > 0`" % u(st.test))
+                    run(st.body if bits[k] else st.orelse, path + [k])
+                else:
+                    for c in ast.walk(st):
+                        if isinstance(c, ast.Call) and isinstance(c.func, ast.Name) and c.func.id in m.functions and c.func.id.startswith("_case"):
+                            reached.append((c, set(path)))
+        run([top], [])
+        pat = "(%s)" % ",".join("+" if b else "0" for b in bits)
+        key = "%s|pattern %s" % (f.key, pat)
+        where = "%s:%d" % (m.relpath, top.lineno)
+        if len(reached) != 1:
+            rep.bad(rule, key, where, "sign pattern %s reaches %d case calls (expected exactly one)" % (pat, len(reached)))
+            continue
+        call, tested = reached[0]
+        P = {k for k in range(3) if bits[k]}
+        Z = {k for k in range(3) if not bits[k]}
+        if tested != {0, 1, 2}:
+            rep.bad(rule, key, where, "pattern %s reaches %s after testing only the axes %s" % (pat, call.func.id, sorted(tested)))
+            continue
+        callee = m.functions[call.func.id]
+        cparams = callee.params()
+        dirparam = None
+        for a, p in zip(call.args, cparams):
+            if isinstance(a, ast.Name) and a.id == dvec:
+                dirparam = p
+        roles = _index_roles(callee, dirparam) if dirparam else {}
+        moving, static = set(), set()
+        ok_const = True
+        for a, p in zip(call.args, cparams):
+            if p in roles:
+                try:
+                    v = ast.literal_eval(a)
+                except Exception:
+                    ok_const = False
+                    continue
+                (moving if roles[p] == "moving" else static).add(v)
+        if not ok_const:
+            rep.unknown(rule, key, where, "index arguments of %s are not literals" % call.func.id)
+            continue
+        if not roles:
+            # no index parameters: the callee treats all three axes alike
+            all_moving = dirparam is not None
+            good = (P == {0, 1, 2}) if all_moving else (Z == {0, 1, 2})
+            rep.check(good, rule, key, where,
+                      "pattern %s is handled by %s, which %s" % (pat, call.func.id, "divides by all three direction components (needs (+,+,+))" if all_moving
+                                                                 else "ignores the direction (needs (0,0,0))"),
+                      "%s" % call.func.id)
+            continue
+        rep.check(moving == P and static == Z, rule, key, where,
+                  "pattern %s calls %s with moving axes %s and clamped axes %s, but the positive components are %s and the zero components %s: "
+                  "the callee divides by a zero component or ignores the line's motion along a positive one"
+                  % (pat, u(call)[:60], sorted(moving), sorted(static), sorted(P), sorted(Z)),
+                  "%s moving=%s clamped=%s" % (call.func.id, sorted(moving), sorted(static)))
+
+
+def r_tournament(idx, rep, rule="R-TOURNAMENT"):
+    rep.rule(rule, "_case_no_zeros picks the box face the line leaves through by pairwise comparisons d[j]*pme[i] >= d[i]*pme[j] "
+                   "('axis i before axis j'): on every path the face handed to _box_face is the one axis that won all its comparisons, "
+                   "every comparison is the antisymmetric pair of products, and the three indices are a permutation", floor=4)
+    f = idx.func(LB + "::_case_no_zeros")
+    m = idx.module(LB)
+    params = f.params()
+    # products: name -> (direction axis, pme axis)
+    prods = {}
+    pme = None
+    for st in ast.walk(f.node):
+        if isinstance(st, ast.Assign) and len(st.targets) == 1 and isinstance(st.targets[0], ast.Name):
+            v = st.value
+            if isinstance(v, ast.BinOp) and isinstance(v.op, ast.Sub) and all(isinstance(x, ast.Name) and x.id in params for x in (v.left, v.right)):
+                pme = st.targets[0].id          # point_m_edge = point_in_box - box_half_size
+    dirp = None
+    for st in ast.walk(f.node):
+        if isinstance(st, ast.Assign) and len(st.targets) == 1 and isinstance(st.targets[0], ast.Name) and isinstance(st.value, ast.BinOp) \
+                and isinstance(st.value.op, ast.Mult):
+            l, r = st.value.left, st.value.right
+            for a, b in ((l, r), (r, l)):
+                if isinstance(a, ast.Subscript) and isinstance(b, ast.Subscript) and isinstance(a.value, ast.Name) and isinstance(b.value, ast.Name) \
+                        and a.value.id in params and b.value.id == pme:
+                    try:
+                        prods[st.targets[0].id] = (ast.literal_eval(a.slice), ast.literal_eval(b.slice))
+                        dirp = a.value.id
+                    except Exception:
+                        pass
+    if pme is None or len(prods) < 4:
+        raise AnalysisError("_case_no_zeros: products d[a] * point_m_edge[b] not found (%d)" % len(prods))
+    n_leaf = [0]
+
+    def walk(body, beaten, path):
+        for st in body:
+            if isinstance(st, ast.If):
+                t = ncmp(st.test)
+                where = "%s:%d" % (m.relpath, st.lineno)
+                key = "%s|comparison %s" % (f.key, " > ".join(path + ["?"]))
+                if t is None or t[0] != "<=" or not all(isinstance(x, ast.Name) and x.id in prods for x in (t[1], t[2])):
+                    rep.unknown(rule, key, where, "test `%s` is not a >= comparison of two products" % u(st.test))
+                    return
+                (dy, py), (dx, px) = prods[t[1].id], prods[t[2].id]        # t[1] <= t[2]  i.e.  X=t[2] >= Y=t[1]
+                # X = d[dx]*pme[px] >= Y = d[dy]*pme[py]; antisymmetric pair needs dx == py and dy == px; winner is px
+                okpair = dx == py and dy == px and dx != dy
+                rep.check(okpair, rule, "%s|comparison of axes {%s,%s} after %s" % (f.key, min(px, py), max(px, py), "/".join(path) or "start"), where,
+                          "`%s` compares d[%s]*pme[%s] with d[%s]*pme[%s]: not the antisymmetric pair d[j]*pme[i] >= d[i]*pme[j]" % (u(st.test), dx, px, dy, py),
+                          "axis %s before axis %s" % (px, py))
+                if not okpair:
+                    return
+                walk(st.body, beaten | {py}, path + ["%s>%s" % (px, py)])
+                walk(st.orelse, beaten | {px}, path + ["%s>%s" % (py, px)])
+            else:
+                for c in ast.walk(st):
+                    if isinstance(c, ast.Call) and isinstance(c.func, ast.Name) and c.func.id == "_box_face":
+                        n_leaf[0] += 1
+                        where = "%s:%d" % (m.relpath, c.lineno)
+                        key = "%s|leaf after %s" % (f.key, "/".join(path))
+                        try:
+                            ix = [ast.literal_eval(a) for a in c.args[:3]]
+                        except Exception:
+                            rep.unknown(rule, key, where, "face indices are not literals")
+                            continue
+                        undefeated = {0, 1, 2} - beaten
+                        rep.check(sorted(ix) == [0, 1, 2] and len(undefeated) == 1 and ix[0] in undefeated, rule, key, where,
+                                  "after the comparisons %s the only axis that won all its comparisons is %s, but _box_face is given face %s (indices %s)"
+                                  % (path, sorted(undefeated), ix[0], ix), "face %s" % ix[0])
+    walk([st for st in f.node.body if isinstance(st, ast.If)], set(), [])
+    if n_leaf[0] < 4:
+        rep.error("R-TOURNAMENT: only %d _box_face leaves found in _case_no_zeros" % n_leaf[0])
+
+
+# ------------------------------------------------------------------------------------------------ _box_face
+def _sort_store_runs(block):
+    """consecutive stores `arr[ix] = expr` into one array whose right-hand sides do not read that array are independent:
+    put each maximal run into a canonical order (the mirrored branch lists them in the mirrored order)"""
+    out, run, arr = [], [], None
+
+    def flush():
+        out.extend(sorted(run, key=ast.unparse))
+        del run[:]
+    for st in block:
+        ok = isinstance(st, ast.Assign) and len(st.targets) == 1 and isinstance(st.targets[0], ast.Subscript) and isinstance(st.targets[0].value, ast.Name)
+        if ok:
+            a = st.targets[0].value.id
+            reads = {n.id for n in ast.walk(st.value) if isinstance(n, ast.Name)}
+            if a in reads or (arr is not None and a != arr):
+                flush()
+                arr = None
+                ok = a not in reads
+            if ok:
+                arr = a
+                run.append(st)
+                continue
+        flush()
+        arr = None
+        for fld in ("body", "orelse"):
+            sub = getattr(st, fld, None)
+            if isinstance(sub, list) and sub and isinstance(sub[0], ast.stmt):
+                setattr(st, fld, _sort_store_runs(sub))
+        out.append(st)
+    flush()
+    return out
+
+
+def _txt(stmts):
+    import copy
+    stmts = _sort_store_runs([copy.deepcopy(s) for s in stmts])
+    return _norm_commutative("\n".join(ast.unparse(s) for s in stmts))
+
+
+def _flatten_sum(node):
+    if isinstance(node, ast.BinOp) and isinstance(node.op, ast.Add):
+        return _flatten_sum(node.left) + _flatten_sum(node.right)
+    return [node]
+
+
+def r_boxface(idx, rep, rule="R-BOXFACE"):
+    rep.rule(rule, "_box_face (closest point of a line to a box face region): (a) the two one-sided branches are mirror images under "
+                   "i1<->i2 and the 'both outside' branch re-uses them verbatim for its two edge cases; (b) in every leaf the offset of "
+                   "each axis is the same in delta, in the squared distance and in the stored box point (pme -> +e, ppe -> -e, tmp -> t - e)",
+             floor=10)
+    f = idx.func(LB + "::_box_face")
+    m = idx.module(LB)
+    ps = f.params()
+    i0, i1, i2 = ps[0], ps[1], ps[2]
+    top = [st for st in f.node.body if isinstance(st, ast.If) and st.orelse]
+    if not top or not isinstance(top[0].body[0], ast.If) or not isinstance(top[0].orelse[0], ast.If):
+        raise AnalysisError("_box_face: two-level decision not found")
+    top = top[0]
+    A, B = top.body[0], top.orelse[0]
+    A2, B1, B2 = A.orelse, B.body, B.orelse
+    where = "%s:%d" % (m.relpath, top.lineno)
+    rep.check(_txt(A2) == _txt(ast.parse(_swap("\n".join(ast.unparse(x) for x in B1), i1, i2)).body), rule, f.key + "|branch (i1 inside, i2 outside) mirrors (i1 outside, i2 inside)", where,
+              "the branch for `v[i1] >= -e, v[i2] < -e` is no longer the mirror image (i1<->i2) of the branch for `v[i1] < -e, v[i2] >= -e`: one of them was edited alone")
+    # the two inner tests mirror each other as well
+    tA, tB = ncmp(A.test), ncmp(top.test)
+    rep.check(tA is not None and tB is not None and _norm_commutative(_swap(u(tA[1]) + " ; " + u(tA[2]), i1, i2)) == _norm_commutative(u(tB[1]) + " ; " + u(tB[2]))
+              and u(A.test) == u(B.test), rule, f.key + "|region tests", where,
+              "the region tests `%s` / `%s` / `%s` are not the i1<->i2 images of each other" % (u(top.test), u(A.test), u(B.test)))
+    # B2:  l_sqr, tmp ; if tmp >= 0: <A2's inner if> else: l_sqr, tmp ; if tmp >= 0: <B1's inner if> else corner
+    def head_and_if(block):
+        ifs = [s for s in block if isinstance(s, ast.If)]
+        return [s for s in block if not isinstance(s, ast.If)], (ifs[0] if ifs else None)
+    hA, ifA = head_and_if(A2)
+    hB, ifB = head_and_if(B1)
+    h2, if2 = head_and_if(B2)
+    ok = if2 is not None and ifA is not None and _txt(h2) == _txt(hA) and len(if2.body) == 1 and _txt(if2.body) == _txt([ifA])
+    rep.check(ok, rule, f.key + "|both-outside branch re-uses the i1-edge case", where,
+              "in the `v[i1] < -e, v[i2] < -e` branch the 'v[i1]-edge is closest' case differs from the one-sided branch it was copied from")
+    ok2 = False
+    if if2 is not None and ifB is not None:
+        h3, if3 = head_and_if(if2.orelse)
+        ok2 = if3 is not None and _txt(h3) == _txt(hB) and len(if3.body) == 1 and _txt(if3.body) == _txt([ifB])
+    rep.check(ok2, rule, f.key + "|both-outside branch re-uses the i2-edge case", where,
+              "in the `v[i1] < -e, v[i2] < -e` branch the 'v[i2]-edge is closest' case differs from the one-sided branch it was copied from")
+    # (b) leaf coherence.  pme = the parameter `point - e`; ppe = the local array filled with `point[ix] + e[ix]`
+    pme = ps[5]
+    ppe = None
+    for st in f.node.body:
+        if isinstance(st, ast.Assign) and isinstance(st.targets[0], ast.Subscript) and isinstance(st.targets[0].value, ast.Name) \
+                and isinstance(st.value, ast.BinOp) and isinstance(st.value.op, ast.Add) and st.targets[0].value.id not in ps:
+            ppe = st.targets[0].value.id
+    if ppe is None:
+        raise AnalysisError("_box_face: the `point + e` array was not found")
+    n = 0
+    for node in ast.walk(f.node):
+        for fld in ("body", "orelse"):
+            blk = getattr(node, fld, None)
+            if not isinstance(blk, list):
+                continue
+            aug = [s for s in blk if isinstance(s, ast.AugAssign) and isinstance(s.op, ast.Add) and isinstance(s.target, ast.Name)]
+            if not aug:
+                continue
+            sq = aug[-1]
+            terms = _flatten_sum(sq.value)
+            squares = [t for t in terms if isinstance(t, ast.BinOp) and isinstance(t.op, ast.Mult) and u(t.left) == u(t.right)]
+            cross = [t for t in terms if t not in squares]
+            if len(squares) != 3 or len(cross) != 1:
+                continue
+            n += 1
+            key = "%s|leaf #%d offsets agree" % (f.key, n)
+            lw = "%s:%d" % (m.relpath, sq.lineno)
+            dname = [x.id for x in ast.walk(cross[0]) if isinstance(x, ast.Name)]
+            ddef = [s for s in blk if isinstance(s, ast.Assign) and isinstance(s.targets[0], ast.Name) and s.targets[0].id in dname
+                    and len(_flatten_sum(s.value)) == 3]
+            if len(ddef) != 1:
+                rep.unknown(rule, key, lw, "delta definition not found in the leaf")
+                continue
+            per_axis = {}
+            bad = None
+            for t in _flatten_sum(ddef[0].value):
+                if not (isinstance(t, ast.BinOp) and isinstance(t.op, ast.Mult)):
+                    bad = "delta term `%s` is not d[i] * offset" % u(t)
+                    break
+                dpart, off = (t.left, t.right) if isinstance(t.left, ast.Subscript) and u(t.left.value) not in (pme, ppe) else (t.right, t.left)
+                if not isinstance(dpart, ast.Subscript):
+                    bad = "delta term `%s` has no direction component" % u(t)
+                    break
+                per_axis[u(dpart.slice)] = u(off)
+            if bad is None and sorted(per_axis) != sorted([i0, i1, i2]):
+                bad = "delta does not have one term per axis (%s)" % sorted(per_axis)
+            if bad is None:
+                sqs = sorted(u(t.left) for t in squares)
+                if sqs != sorted(per_axis.values()):
+                    bad = "delta uses the offsets %s but the squared distance adds the squares of %s" % (sorted(per_axis.values()), sqs)
+            if bad is None:
+                stores = {u(s.targets[0].slice): s.value for s in blk if isinstance(s, ast.Assign) and isinstance(s.targets[0], ast.Subscript)
+                          and isinstance(s.targets[0].value, ast.Name) and s.targets[0].value.id in ps and isinstance(s.targets[0].slice, ast.Name)}
+                for ax, off in per_axis.items():
+                    if ax not in stores:
+                        bad = "the box point's component %s is not stored in this leaf" % ax
+                        break
+                    rhs = u(stores[ax]).replace(" ", "")
+                    half = [p for p in ps if p in rhs]
+                    if off.startswith(pme + "["):
+                        good = rhs.startswith(tuple(p + "[" for p in ps)) and not rhs.startswith("-") and rhs.endswith("[%s]" % ax)
+                    elif off.startswith(ppe + "["):
+                        good = rhs.startswith("-") and rhs.endswith("[%s]" % ax)
+                    else:
+                        # tmp = point_p_edge[ax] - t   <->   point[ax] = t - e[ax]
+                        tdef = [s for s in blk if isinstance(s, ast.Assign) and u(s.targets[0]) == off and isinstance(s.value, ast.BinOp) and isinstance(s.value.op, ast.Sub)]
+                        good = bool(tdef) and u(tdef[-1].value.left) == "%s[%s]" % (ppe, ax) and isinstance(stores[ax], ast.BinOp) and isinstance(stores[ax].op, ast.Sub) \
+                            and u(stores[ax].left) == u(tdef[-1].value.right) and u(stores[ax].right).endswith("[%s]" % ax)
+                    if not good:
+                        bad = "axis %s: delta/squared distance use the offset `%s` but the stored box point is `%s`" % (ax, off, u(stores[ax]))
+                        break
+            rep.check(bad is None, rule, key, lw, "leaf of _box_face is inconsistent: %s (distance, line parameter and closest point no longer describe the same point)" % bad,
+                      "offsets %s" % per_axis)
+    if n < 7:
+        rep.error("R-BOXFACE: only %d leaves recognised in _box_face" % n)
